@@ -171,7 +171,7 @@ REGISTRY = {
     },
     "C19": {
         "level": "fault_enumeration", "modules": ["SkaModel.Props.C19", "SkaModel.Props.C19Final"], "gen": [], "cli": [cli.c19_cli],
-        "rule": "complete enumeration of every truncation point and every single-bit flip of concrete .skf files (64- and 128-bit; thorough: also a multi-frame file at byte stride 9) through the real loader with the lib.rs dispatch; each fault is a distinct non-trivial case; the frame-decoder model is cross-checked against snap on a subset; random faults through every CLI subcommand",
+        "rule": "one flipped bit per sampled byte (thorough: every byte) and truncations through align / map / distance with --threads 2-3; complete enumeration of every truncation point and every single-bit flip of concrete .skf files (64- and 128-bit; thorough: also a multi-frame file at byte stride 9) through the real loader with the lib.rs dispatch; each fault is a distinct non-trivial case; the frame-decoder model is cross-checked against snap on a subset; random faults through every CLI subcommand",
         "trusted_base": COMMON_TRUST, "assumptions": [EXTERNAL, "flips inside compressed payloads / chunk type / length bytes are decided per file by enumeration, not by theorem (2^-32 CRC events)"],
     },
     "C12": {
